@@ -1182,6 +1182,27 @@ pub fn semantically_empty_family(pool: &Pool) -> Vec<T> {
             v.push(T::Cat2(b(&a), Box::new(T::Cat2(b(&bb), b(&u)))));
         }
     }
+    // the same compound head in front of a dead tail and in front of a live tail (both creation orders), as the
+    // operands of a union / inside a loop: what was found out about the head under the dead tail says nothing
+    // about it under the live one
+    {
+        let cc = T::Chr(pool.c);
+        let heads: Vec<T> = vec![
+            T::Plus(b(&a)), T::Star(Box::new(T::Alt2(b(&a), b(&bb)))), T::Cat2(b(&a), b(&bb)),
+            T::Cat2(Box::new(T::Opt(b(&a))), b(&bb)), T::Loop(b(&ab), 1, Some(2)), T::Alt2(b(&a), b(&ab)),
+        ];
+        for h in &heads {
+            for e in empties.iter().take(5) {
+                let dead = T::Cat2(b(h), b(e));
+                let live = T::Cat2(b(h), b(&cc));
+                v.push(T::Alt2(b(&dead), b(&live)));
+                v.push(T::Alt2(b(&live), b(&dead)));
+                v.push(T::AltL(vec![dead.clone(), T::Cat2(b(&cc), b(&dead)), live.clone()]));
+                v.push(T::Star(Box::new(T::Alt2(b(&dead), b(&live)))));
+                v.push(T::Cat2(Box::new(T::Opt(b(&dead))), b(&live)));
+            }
+        }
+    }
     for e in &empties {
         v.push(T::Star(b(e)));
         v.push(T::Opt(b(e)));
